@@ -265,3 +265,76 @@ func c13GroupExtent(c *core.Check) {
 		r.Unknown("html/layout.tableLayout | extent from two columns", p.Pos(fn.Pos()), "no width computed from the edges of two boxes")
 	}
 }
+
+// c13GroupExtentInGrid (R18): columns beyond the grid ("extra empty columns": more <col> than cells) are given the
+// position 0 and the width 0 by tableLayout; they have no place, so they cannot be an end of their group's extent.
+// tableLayout compares the GridX of a column with the number of column positions once to place the column; the
+// extent of the group needs the same comparison outside of the placing loop (the loop that stores the columns' GetCells),
+// in the loop over the groups.  (Three <col> for two cells and a table at x = 50: the group's width was −50.)
+func c13GroupExtentInGrid(c *core.Check) {
+	p := c.Prog
+	r := c.Rule("R18", "the extent of a column group ignores columns beyond the grid: in tableLayout, besides the test that places a column, a comparison of a column's GridX with len(table.ColumnPositions) is made outside of the placing loop (the one that stores GetCells), in the loop that stores the group's width", 1)
+	fn := p.Fn("html/layout", "tableLayout")
+	if fn == nil {
+		r.Anchor("html/layout.tableLayout")
+		return
+	}
+	key := "html/layout.tableLayout | group extent over the columns of the grid"
+	var place *core.Loop
+	core.Instrs(fn, func(in ssa.Instruction) {
+		if st, ok := in.(*ssa.Store); ok {
+			if fa, ok := st.Addr.(*ssa.FieldAddr); ok && core.FieldName(fa) == "GetCells" {
+				place = core.InnermostLoop(fn, st.Block())
+			}
+		}
+	})
+	if place == nil {
+		r.Unknown(key, p.Pos(fn.Pos()), "the loop that places the columns (store of GetCells) was not found")
+		return
+	}
+	// the loop over the groups: the smallest loop that strictly contains the placing loop
+	var groups *core.Loop
+	for _, l := range core.Loops(fn) {
+		if l != place && l.Blocks[place.Header] && len(l.Blocks) > len(place.Blocks) && (groups == nil || len(l.Blocks) < len(groups.Blocks)) {
+			groups = l
+		}
+	}
+	if groups == nil {
+		r.Unknown(key, p.Pos(fn.Pos()), "no loop around the placing loop")
+		return
+	}
+	isGridX := func(v ssa.Value) bool {
+		return core.DerivesFrom(v, func(x ssa.Value) bool { return core.IsFieldNamed(x, "GridX") })
+	}
+	isLenPositions := func(v ssa.Value) bool {
+		call, ok := v.(*ssa.Call)
+		if !ok {
+			return false
+		}
+		if b, ok := call.Call.Value.(*ssa.Builtin); !ok || b.Name() != "len" {
+			return false
+		}
+		return core.DerivesFrom(call.Call.Args[0], func(x ssa.Value) bool { return core.IsFieldNamed(x, "ColumnPositions") })
+	}
+	inPlace, outside := 0, 0
+	for _, a := range core.CondAtoms(fn) {
+		bo, ok := a.(*ssa.BinOp)
+		if !ok {
+			continue
+		}
+		if !((isGridX(bo.X) && isLenPositions(bo.Y)) || (isGridX(bo.Y) && isLenPositions(bo.X))) {
+			continue
+		}
+		switch {
+		case place.Blocks[bo.Block()]:
+			inPlace++
+		case groups.Blocks[bo.Block()]:
+			outside++
+		}
+	}
+	if inPlace == 0 {
+		r.Skip(key, p.Pos(fn.Pos()), "tableLayout does not set columns beyond the grid aside: every column has a position")
+		return
+	}
+	r.Cond(outside > 0, key, p.Pos(fn.Pos()), fmt.Sprintf("%d comparison(s) of GridX with the number of positions in the loop over the groups, outside of the placing loop", outside), "columns beyond the grid are given the position 0 and the width 0, and the extent of the group is computed without testing which columns are in the grid: with more <col> than cells the group's width is negative")
+}
